@@ -24,13 +24,19 @@ Mon0 == [ np     |-> 0,       \* probes created so far
           plog   |-> <<>>,    \* probe -> its notifications so far, as <<t, v>>
           ph     |-> <<>>,    \* probe -> handle it was subscribed through (0: none)
           hroot  |-> <<>>,    \* handle -> AST it subscribed
-          hin    |-> <<>>,    \* handle -> hot input a -> notifications since that subscription
+          tl     |-> <<>>,    \* handle -> timeline <<a, t, v>> of the hot inputs since that subscription
           unsubd |-> <<>>,    \* handle -> unsubscribe() has returned
           closed |-> <<>>,    \* handle -> is_closed() has answered true
           nh     |-> 0,
           bad    |-> <<>> ]   \* property ids violated by the last step
 
 AddBad(m, id) == IF SeqContains(m.bad, id) THEN m ELSE [m EXCEPT !.bad = Append(@, id)]
+
+RECURSIVE AddBadSeq(_, _)
+AddBadSeq(m, ids) == IF ids = <<>> THEN m ELSE AddBadSeq(AddBad(m, Head(ids)), Tail(ids))
+SetToSeq(ss) == LET f[T \in SUBSET ss] == IF T = {} THEN <<>> ELSE LET x == CHOOSE y \in T : TRUE IN <<x>> \o f[T \ {x}] IN f[ss]
+AddBads(m, ids) == AddBadSeq(m, SetToSeq(ids))
+RefProps == {"C03", "C04", "C13"}
 
 (* --- one probe notification --- *)
 LogOne(m, e, checks) ==
@@ -48,17 +54,16 @@ LogOne(m, e, checks) ==
 RECURSIVE LogAll(_, _, _)
 LogAll(m, log, checks) == IF log = <<>> THEN m ELSE LogAll(LogOne(m, Head(log), checks), Tail(log), checks)
 
-(* add notification msg to the per-handle input record of hot input a, for every handle *)
-AddInput(hin, a, msg) ==
-  [h \in 1..Len(hin) |-> [i \in 1..Len(hin[h]) |-> IF i = a THEN Append(hin[h][i], msg) ELSE hin[h][i]]]
-
-NHOT == 4
+(* add a notification to the timeline of every handle *)
+AddInput(tls, ev) == [h \in 1..Len(tls) |-> Append(tls[h], ev)]
 
 (* --- reference check (C03 / C13): every subscription's log equals the documented sequence --- *)
 RefCheck(m) ==
   \A p \in 1..m.np :
      LET h == GetI(m.ph, p) IN
-     h > 0 => (IF p <= Len(m.plog) THEN m.plog[p] ELSE <<>>) = MsgsOf(Ref(m.hroot[h], m.hin[h]))
+     h > 0 => LET got == IF p <= Len(m.plog) THEN m.plog[p] ELSE <<>> IN
+              \/ got = MsgsOf(Ref(m.hroot[h], m.tl[h], {}))
+              \/ \E var \in (SUBSET AmbiguousChoices) \ {{}} : got = MsgsOf(Ref(m.hroot[h], m.tl[h], var))
 
 (* --- one step --- *)
 MonStep(m0, step, checks) ==
@@ -71,8 +76,8 @@ MonStep(m0, step, checks) ==
                [m EXCEPT !.np = @ + 1, !.nh = @ + 1,
                          !.ph = SetAt(@, m.np + 1, m.nh + 1, 0),
                          !.hroot = Append(@, s.a),
-                         !.hin = Append(@, [i \in 1..NHOT |-> <<>>])]
-          [] s.k = "emit" \/ s.k = "emitc" -> [m EXCEPT !.hin = AddInput(@, s.a, <<s.t, s.v>>)]
+                         !.tl = Append(@, <<>>)]
+          [] s.k = "emit" \/ s.k = "emitc" -> [m EXCEPT !.tl = AddInput(@, <<s.a, s.t, s.v>>)]
           [] OTHER -> m
       mid == LogAll(pre, o.log, checks)
       (* bookkeeping done AFTER the call has returned *)
@@ -84,7 +89,9 @@ MonStep(m0, step, checks) ==
                ELSE IF "C17" \in checks /\ GetB(mid.closed, s.a) THEN AddBad(mid, "C17")
                ELSE mid
           [] OTHER -> mid
-      r1 == IF "C03" \in checks /\ o.fault = "" /\ ~RefCheck(post) THEN AddBad(post, "C03") ELSE post
+      (* the reference oracle decides every property whose statement is "delivers exactly the documented sequence" *)
+      refIds == checks \cap RefProps
+      r1 == IF refIds # {} /\ o.fault = "" /\ ~RefCheck(post) THEN AddBads(post, refIds) ELSE post
       r2 == IF "C05" \in checks /\ o.fault # "" THEN AddBad(r1, "C05") ELSE r1
   IN r2
 
